@@ -1045,7 +1045,7 @@ def ihu_minimize_error(
     # loop over cells with flow dir error from down to upstream
     seq = np.argsort(subuparea[subidxs_out[idxs_fix]])
     for i0 in seq[::-1]:  # @0A lowres fix index loop
-        idx0 = idxs_fix[i0]
+        idx0 = int(idxs_fix[i0])  # python int: uint64 mixed with int64 neighbours would turn into float
         # for idx0 in idxs_fix:
         fixed = False
         subidx0 = subidxs_out[idx0]
